@@ -13,6 +13,7 @@ import (
 type queuedWorkSpace struct {
 	ws          *WorkSpace
 	wouldMining bool
+	stopSeq     uint64 // ws.stopSeq when the request was made
 }
 
 // newQueuedWorkSpace creates queuedWorkSpace from an existing workSpace.
@@ -21,6 +22,7 @@ func newQueuedWorkSpace(ws *WorkSpace, wouldMining bool) *queuedWorkSpace {
 	return &queuedWorkSpace{
 		ws:          ws,
 		wouldMining: wouldMining,
+		stopSeq:     ws.stopSeq,
 	}
 }
 
@@ -135,6 +137,12 @@ func (sk *SpaceKeeper) spacePlotter() {
 		}
 		// Step 1: safely change state to plotting/mining
 		sk.stateLock.Lock()
+		if qws.stopSeq != ws.stopSeq {
+			// the space was stopped, removed or deleted after this request was made: the request is void,
+			// wherever it was waiting (request channel, queue, or already popped)
+			sk.stateLock.Unlock()
+			return
+		}
 		if _, ok := sk.workSpaceIndex[engine.Registered].Get(sid); ok {
 			changeState(engine.Registered, engine.Plotting)
 		} else {
